@@ -750,9 +750,13 @@ impl State {
         match change {
             StateChange::FundingConfirmed(outpoint) => {
                 // A funding tx was reorged-out
-                assert_eq!(self.funding_height, Some(self.height));
-                self.funding_height = None;
-                self.funding_outpoint = None;
+                if self.funding_height.is_some() {
+                    assert_eq!(self.funding_height, Some(self.height));
+                    self.funding_height = None;
+                    self.funding_outpoint = None;
+                }
+                // otherwise the block was connected before this monitor was created
+                // (funding confirmed before setup_channel): nothing was recorded, nothing to undo
                 adds.push(outpoint);
             }
             StateChange::FundingInputSpent(outpoint) => {
